@@ -107,7 +107,7 @@ def install():
             r = orig(self, script, idx, hash_type)
             try:
                 tx = self.tx
-                if isinstance(script, (bytes, bytearray)) and _plain(tx) and isinstance(hash_type, int) and 0 <= hash_type < 256 and type(self) is cls:
+                if isinstance(script, (bytes, bytearray)) and _plain(tx) and isinstance(hash_type, int) and 0 <= hash_type < 256 and getattr(type(self), name, None) is f:
                     kind, fork_or = _fork_of(tx)
                     rt = _ref_tx(tx)
                     H = SH.sha if kind == "grs" else SH.dsha
